@@ -1,5 +1,6 @@
 import LyModel.Ctx.LemmasFinal
 import LyModel.Ctx.LemmasUsable
+import LyModel.Ctx.LemmasLatest
 import LyModel.Ctx.Examples
 /-!
 # C09 — a failed schema operation leaves the context as it was
@@ -390,6 +391,36 @@ theorem later_load_same (c : Cfg) (hc : c.recomputeImported = true) :
 
 /-- the context of the F134 witness: `xxx` parsed; the sources also hold `aaa@2020-01-01` (fails late) and `top` -/
 def w134 (c : Cfg) : Ctx := (run (ctx0 [A19, X, A20late, Top] false c) (.parse X none)).2
+
+/-- **F132, after the repair, in general.**  In a context in which LYS_MOD_IMPORTED_REV marks exactly the modules that are
+    imported without revision-date (`ImpOk`; the code sets the flag nowhere else — the contexts of the witnesses are such contexts),
+    EVERY failed call — any operation, any failure point, with or without a `features` argument — leaves the flag of every
+    module as it was: the failed attempt cannot redirect later dateless imports. -/
+theorem imported_rev_restored (s : Ctx) (op : Op) (e : Nat) (s' : Ctx) (hq : Quiescent s)
+    (hcfg : s.cfg.recomputeImported = true) (himp : s.ImpOk) (hrun : run s op = (.error e, s')) :
+    s'.mods.map (fun m => (m.key, m.latest.imp)) = s.mods.map (fun m => (m.key, m.latest.imp)) := by
+  rcases run_error hrun with hm | hm
+  · rw [hm]
+  · have hinv : Inv none (restore none s) s := ⟨rfl, hq.keys, hq.flags⟩
+    obtain ⟨k, hk⟩ := forward_masked op s hinv
+    have hk' : Inv (some k) (restore (some k) s) (forward op s).2 := by
+      have : (restore none s).map (maskCore k) = restore (some k) s := by
+        simp only [restore, List.map_map]
+        apply List.map_congr_left
+        intro m _
+        exact (restoredCore_mask _ k m).symm
+      rw [← this]; exact hk
+    have hc := revert_cores hq.noCreating hq.noImplementing hq.lrefs hk'
+    rw [← hm] at hc
+    have hok : ImpOkL (s'.mods.map Mod.lview) := by
+      rw [hm]
+      exact revert_impOk _ (by rw [(cfg_constant s op).2]; exact hcfg)
+    exact impOk_determined (dateless_of_coreM hc) hok himp
+
+/-- non-vacuity: the context of the F132 witness is such a context, and the call fails in it -/
+example : (w132 ⟨true, true, true, true, true⟩).ImpOk ∧ Quiescent (w132 ⟨true, true, true, true, true⟩) ∧
+    rc (run (w132 ⟨true, true, true, true, true⟩) (.parse Bbad none)).1 = 7 :=
+  ⟨Ctx.ImpOk.ofB (by decide +kernel), Quiescent.ofB (by decide +kernel), by decide +kernel⟩
 
 /-- **F134, before the repair.**  A *successful* call can leave a half-parsed module behind: looking for a newer revision for a dateless
     import, `lys_parse_load_from_clb_or_file` ignores the failure of `lys_parse_in`, but the module had already been
